@@ -262,54 +262,69 @@ pub fn world_cfg_strategy(p: &CfgProfile) -> BoxedStrategy<WorldCfg> {
 }
 
 pub fn op_strategy(w: &Weights) -> BoxedStrategy<Op> {
-    let t = || 0u8..6;
-    let v = || 0u8..4;
-    let mut alts: Vec<(u32, BoxedStrategy<Op>)> = vec![];
-    let mut add = |wt: u32, s: BoxedStrategy<Op>| {
-        if wt > 0 {
-            alts.push((wt, s));
-        }
-    };
-    add(
-        w.open,
-        (t(), v(), any::<bool>(), any::<u16>(), any::<u16>(), 0u8..5)
-            .prop_map(|(t, v, buy, margin, lev, limit)| Op::Open { t, v, buy, margin, lev, limit })
-            .boxed(),
-    );
-    add(w.close, (t(), v(), 0u8..5).prop_map(|(t, v, limit)| Op::Close { t, v, limit }).boxed());
-    add(w.deposit, (t(), v(), any::<u16>()).prop_map(|(t, v, amt)| Op::Deposit { t, v, amt }).boxed());
-    add(w.withdraw, (t(), v(), any::<u16>()).prop_map(|(t, v, amt)| Op::Withdraw { t, v, amt }).boxed());
-    add(
-        w.liquidate,
-        (0u8..8, v(), t(), 0u8..3)
-            .prop_map(|(who, v, target, limit)| Op::Liquidate { who, v, target, limit })
-            .boxed(),
-    );
-    add(w.liq_weakest, (0u8..8, v()).prop_map(|(who, v)| Op::LiquidateWeakest { who, v }).boxed());
-    add(w.funding, (0u8..8, v()).prop_map(|(who, v)| Op::PayFunding { who, v }).boxed());
-    add(w.block, (0u8..12).prop_map(|dt| Op::NextBlock { dt }).boxed());
-    add(w.oracle, (v(), any::<u16>()).prop_map(|(v, knob)| Op::SetOracle { v, knob }).boxed());
-    add(
-        w.push,
-        (v(), any::<bool>(), any::<u16>()).prop_map(|(v, up, strength)| Op::PushPrice { v, up, strength }).boxed(),
-    );
-    add(
-        w.squeeze,
-        (v(), t(), any::<u16>()).prop_map(|(v, target, knob)| Op::Squeeze { v, target, knob }).boxed(),
-    );
-    add(
-        w.ecfg,
-        (0u8..8, any::<u16>(), any::<u16>()).prop_map(|(field, knob, knob2)| Op::EngineCfg { field, knob, knob2 }).boxed(),
-    );
-    add(w.vcfg, (v(), 0u8..6, any::<u16>()).prop_map(|(v, field, knob)| Op::VammCfg { v, field, knob }).boxed());
-    add(w.pause, any::<bool>().prop_map(|pause| Op::SetPause { pause }).boxed());
-    add(w.setopen, (v(), any::<bool>()).prop_map(|(v, open)| Op::SetOpen { v, open }).boxed());
-    add(w.register, (v(), any::<bool>()).prop_map(|(v, add)| Op::Register { v, add }).boxed());
-    add(w.whitelist, (t(), any::<bool>()).prop_map(|(t, add)| Op::Whitelist { t, add }).boxed());
-    add(w.shutdown, Just(Op::Shutdown).boxed());
-    add(w.alien, any::<bool>().prop_map(|add| Op::RegisterAlien { add }).boxed());
-    add(w.alias, (0u8..6, v(), any::<u16>()).prop_map(|(kind, v, amt)| Op::Alias { kind, v, amt }).boxed());
-    proptest::strategy::Union::new_weighted(alts).boxed()
+    // One flat tuple of knobs mapped onto an op kind by a cumulative weight table (no `Union`: proptest's unions
+    // fork the RNG once per skipped alternative, which starves the pass-through RNG used by the fuzz target).
+    let table: Vec<(u32, u8)> = vec![
+        (w.open, 0),
+        (w.close, 1),
+        (w.deposit, 2),
+        (w.withdraw, 3),
+        (w.liquidate, 4),
+        (w.liq_weakest, 5),
+        (w.funding, 6),
+        (w.block, 7),
+        (w.oracle, 8),
+        (w.push, 9),
+        (w.squeeze, 10),
+        (w.ecfg, 11),
+        (w.vcfg, 12),
+        (w.pause, 13),
+        (w.setopen, 14),
+        (w.register, 15),
+        (w.whitelist, 16),
+        (w.shutdown, 17),
+        (w.alien, 18),
+        (w.alias, 19),
+    ]
+    .into_iter()
+    .filter(|(wt, _)| *wt > 0)
+    .collect();
+    let total: u32 = table.iter().map(|(wt, _)| *wt).sum();
+    (0u32..total.max(1), 0u8..6, 0u8..4, any::<bool>(), any::<u16>(), any::<u16>(), 0u8..12, 0u8..8)
+        .prop_map(move |(k, t, v, b, k1, k2, s1, s2)| {
+            let mut acc = 0u32;
+            let mut kind = table[0].1;
+            for (wt, kd) in &table {
+                acc += *wt;
+                if k < acc {
+                    kind = *kd;
+                    break;
+                }
+            }
+            match kind {
+                0 => Op::Open { t, v, buy: b, margin: k1, lev: k2, limit: s1 % 5 },
+                1 => Op::Close { t, v, limit: s1 % 5 },
+                2 => Op::Deposit { t, v, amt: k1 },
+                3 => Op::Withdraw { t, v, amt: k1 },
+                4 => Op::Liquidate { who: s2, v, target: t, limit: s1 % 3 },
+                5 => Op::LiquidateWeakest { who: s2, v },
+                6 => Op::PayFunding { who: s2, v },
+                7 => Op::NextBlock { dt: s1 },
+                8 => Op::SetOracle { v, knob: k1 },
+                9 => Op::PushPrice { v, up: b, strength: k1 },
+                10 => Op::Squeeze { v, target: t, knob: k1 },
+                11 => Op::EngineCfg { field: s2, knob: k1, knob2: k2 },
+                12 => Op::VammCfg { v, field: s1 % 6, knob: k1 },
+                13 => Op::SetPause { pause: b },
+                14 => Op::SetOpen { v, open: b },
+                15 => Op::Register { v, add: b },
+                16 => Op::Whitelist { t, add: b },
+                17 => Op::Shutdown,
+                18 => Op::RegisterAlien { add: b },
+                _ => Op::Alias { kind: s1 % 6, v, amt: k1 },
+            }
+        })
+        .boxed()
 }
 
 pub fn hist_strategy(p: &CfgProfile, w: &Weights, min_ops: usize, max_ops: usize) -> BoxedStrategy<HistCase> {
